@@ -44,6 +44,10 @@ type C20Plan struct {
 	MaxOpen  int   `json:"max_open"`
 	Cfg      ATCfg `json:"cfg"`
 	GoschedP int   `json:"gosched_pct"`
+	// P2LostConn: after the batch one more round of XA transactions (one per
+	// worker, at once) in which the first n XA COMMITs and the first n XA
+	// ROLLBACKs of phase two meet a lost connection (0 = no such round)
+	P2LostConn int `json:"p2_lost_conn,omitempty"`
 }
 
 type c20Action struct {
@@ -85,6 +89,9 @@ func runC20(t *testing.T, seed uint64, planJSON []byte, tier string) (res *Resul
 		plan.Cfg = genATCfg(g, true)
 		plan.Cfg.ServerVersion = simkit.Pick(g, []string{"8.0.30", "8.0.30", "5.7.40", "8.0.28"})
 		plan.GoschedP = simkit.Pick(g, []int{0, 10, 50})
+		if g.Bool() {
+			plan.P2LostConn = g.Range(1, 3)
+		}
 	}
 	tape := simkit.NewTape(seed)
 	stallDone := make(chan struct{})
@@ -323,7 +330,25 @@ func runC20(t *testing.T, seed uint64, planJSON []byte, tier string) (res *Resul
 			}
 			return out
 		}
+		// server-side open connections that no handle accounts for (a connection
+		// may rest in a pool right after CONNECT, when it was opened for a waiter
+		// that got served otherwise; so the journal alone does not tell)
+		surplus := func() int {
+			open := 0
+			for _, cs := range w.Srv.ConnStates() {
+				if !cs.Closed {
+					open++
+				}
+			}
+			for _, db := range []*sql.DB{atDB, xaDB, w.Bare} {
+				if db != nil {
+					open -= db.Stats().OpenConnections
+				}
+			}
+			return open
+		}
 		stray0 := strays()
+		surplus0 := surplus()
 		// the batch
 		var mu sync.Mutex
 		wantAT := map[int]int{}
@@ -422,6 +447,10 @@ func runC20(t *testing.T, seed uint64, planJSON []byte, tier string) (res *Resul
 				}
 			}
 			sort.Strings(lost)
+			if len(lost) > 0 && surplus() <= surplus0 {
+				sim.Probe("c20-fresh-connection-resting-in-pool")
+				lost = nil
+			}
 			if len(lost) > 0 {
 				sim.Violate("C20", "no-connection-lost", "connection-left-open", "%d database connection(s) opened during the batch are still open and in no pool after it: %v", len(lost), lost)
 			}
@@ -450,6 +479,54 @@ func runC20(t *testing.T, seed uint64, planJSON []byte, tier string) (res *Resul
 			}
 			sort.Strings(heads)
 			sim.Violate("C20", "no-goroutine-lost", "goroutines-grew", "goroutines before the batch: %d, after it settled: %d; grown: %s", g0, g1, strings.Join(heads, "; "))
+		}
+		// phase two over connections that die: the client may finish the branch
+		// on another connection or leave it to the coordinator's retries, but it
+		// must come back and must not forget a connection it opened
+		if plan.P2LostConn > 0 && len(sim.Violations()) == 0 {
+			mu.Unlock()
+			stray1 := strays()
+			surplus1 := surplus()
+			var faults []DBFault
+			for n := 1; n <= plan.P2LostConn; n++ {
+				faults = append(faults, DBFault{Class: "xa-commit", Nth: n, Kind: "badconn"}, DBFault{Class: "xa-rollback", Nth: n, Kind: "badconn"})
+			}
+			w.Hook.Reset(faults)
+			var fin int32
+			forceKind = "xa"
+			for wi := 1; wi <= plan.Workers; wi++ {
+				wi := wi
+				go func() {
+					defer atomic.AddInt32(&fin, 1)
+					one(simkit.NewGen(seed^uint64(wi)*104729), wi, 1000)
+				}()
+			}
+			t0 := sim.Now()
+			sim.Run(func() bool { return int(atomic.LoadInt32(&fin)) == plan.Workers || sim.Now()-t0 > 1800*time.Second })
+			if int(atomic.LoadInt32(&fin)) != plan.Workers {
+				sim.Violate("C20", "termination", "stuck-after-lost-phase-two-connection", "%d of %d XA transactions whose phase two met a lost connection did not return within 1800 simulated seconds", plan.Workers-int(fin), plan.Workers)
+			}
+			settle()
+			forceKind = ""
+			w.Hook.Reset(nil)
+			var lost []string
+			for id, kind := range strays() {
+				if _, before := stray1[id]; !before {
+					lost = append(lost, fmt.Sprintf("c%d (last: %s)", id, kind))
+				}
+			}
+			sort.Strings(lost)
+			if len(lost) > 0 && surplus() <= surplus1 {
+				sim.Probe("c20-fresh-connection-resting-in-pool")
+				lost = nil
+			}
+			if len(lost) > 0 {
+				sim.Violate("C20", "no-connection-lost", "connection-left-open-after-lost-phase-two-connection", "%d database connection(s) opened while phase two met lost connections are still open and in no pool: %v", len(lost), lost)
+			}
+			if st := xaDB.Stats(); st.InUse != 0 {
+				sim.Violate("C20", "no-connection-lost", "connection-in-use-xa", "the xa handle still has %d connection(s) in use after the round with lost phase-two connections", st.InUse)
+			}
+			mu.Lock()
 		}
 		sim.State(fmt.Sprintf("!c20 workers=%d per=%d idle=%d open=%d kinds=%d", plan.Workers, plan.PerWork, plan.MaxIdle, plan.MaxOpen, len(kinds)))
 		res.Episodes = plan.Workers * plan.PerWork
